@@ -1,7 +1,7 @@
 (* loadManifest's range mapper returns exactly the requested slice of the stream. *)
 From Coq Require Import List Arith Lia Bool String.
 Import ListNotations.
-From AV Require Import lib.Str lib.Path model.CFS_file model.CFS_tree model.CFS_inst model.CFS_bg
+From AV Require Import lib.Str lib.Path model.CFS_file model.CFS_tree model.CFS_inst model.CFS_bg model.CFS_tload
   proofs.CFS_file_proofs proofs.CFS_refine proofs.CFS_prov.
 Notation length := List.length.
 
@@ -45,7 +45,6 @@ Proof.
   rewrite firstn_app, <- Hsz, firstn_all, Nat.sub_diag. cbn [firstn]. rewrite app_nil_r. reflexivity.
 Qed.
 
-Definition segs_bytes (l : list seg) : list byte := flat_map sbytes l.
 
 (* main lemma: from a consistent cursor not past the range, the mapper appends segments whose bytes are
    exactly stream[offset, offset+len) *)
